@@ -1218,3 +1218,353 @@ T('h4_ctx_update_unset_only', ['C15'],
 T('h4_ctx_update_under_switch', ['C15'],
   (CTX, "            desired_args = self.required + list(self.defaults.keys())\n",
         "            if self.overwrite:\n                context.update({})\n            desired_args = self.required + list(self.defaults.keys())\n"))
+
+
+# ================================================================================================ fifth pass (refactoring round w)
+# ---- a private read-only property for a derived value: read through its return expression (front-end: the property becomes a
+#      private helper method, which the inliner dissolves) --------------------------------------------------------------------
+_ST_TC_PROP = "    @property\n    def total_count(self):\n        return self._total_count\n"
+_ST_ADD_TEST = "        if len(self._data) < self._cap:\n"
+_ST_RESIZE_TEST = "        if new_size >= len(self._data):\n"
+
+
+def _size_prop(ret='len(self._data)', doc=''):
+    return (STATS, _ST_TC_PROP, _ST_TC_PROP + "\n    @property\n    def _data_count(self):\n" + doc + "        return " + ret + "\n")
+
+
+T('h5_store_size_private_property', ['C19'], _size_prop(),
+  (STATS, _ST_ADD_TEST, "        if self._data_count < self._cap:\n"), (STATS, _ST_RESIZE_TEST, "        if new_size >= self._data_count:\n"))
+T('h5_store_size_private_property_named_and_documented', ['C19'], _size_prop(doc='        """number of retained samples"""\n'),
+  (STATS, _ST_ADD_TEST, "        size = self._data_count\n        if size < self._cap:\n"),
+  (STATS, _ST_RESIZE_TEST, "        if not (new_size < self._data_count):\n"))
+B('h5_store_size_property_off_by_one', ['C19'], 'R19.c', _size_prop(ret='len(self._data) - 1'),
+  (STATS, _ST_ADD_TEST, "        if self._data_count < self._cap:\n"), (STATS, _ST_RESIZE_TEST, "        if new_size >= self._data_count:\n"))
+B('h5_store_size_property_not_the_size', ['C19'], 'R19.c', _size_prop(ret='self._cap - 1'),
+  (STATS, _ST_ADD_TEST, "        if self._data_count < self._cap:\n"))
+B('h5_store_size_property_in_resize_only_wrong', ['C19'], 'R19.c', _size_prop(ret='len(self._data) // 2'),
+  (STATS, _ST_RESIZE_TEST, "        if new_size >= self._data_count:\n"))
+
+# ---- the report assembled by a private helper that takes the middleware (dissolved into both endpoints): the report statements of
+#      the report-and-reset endpoint are then the reads of the table themselves ----------------------------------------------------
+_ST_GSD_HEAD = "    stats_mw = _get_stats_mw(_application)\n    rt_hits = stats_mw.route_hits\n"
+_ST_GAR = ("def get_and_reset_stats_dict(_application):\n    ret = get_stats_dict(_application)\n    stats_mw = _get_stats_mw(_application)\n"
+           "    stats_mw.reset()\n    ret['reset'] = True\n    return ret\n")
+_ST_BUILD = (STATS, _ST_GSD_HEAD, "    return _build_stats_dict(_get_stats_mw(_application))\n\n\ndef _build_stats_dict(stats_mw):\n    rt_hits = stats_mw.route_hits\n")
+
+
+def _gar(body):
+    return (STATS, _ST_GAR, "def get_and_reset_stats_dict(_application):\n" + body)
+
+
+T('h5_report_built_by_helper_taking_the_middleware', ['C19', 'C15'], _ST_BUILD,
+  _gar("    stats_mw = _get_stats_mw(_application)\n    ret = _build_stats_dict(stats_mw)\n    stats_mw.reset()\n    ret['reset'] = True\n    return ret\n"))
+T('h5_report_built_by_helper_then_copied', ['C19'], _ST_BUILD,
+  _gar("    stats_mw = _get_stats_mw(_application)\n    report = _build_stats_dict(stats_mw)\n    stats_mw.reset()\n    return dict(report, reset=True)\n"))
+T('h5_report_filled_by_a_loop_over_the_table', ['C19'],
+  _gar("    stats_mw = _get_stats_mw(_application)\n    route_stats = {}\n    for rt, rh in stats_mw.route_hits.items():\n        if rh:\n"
+       "            route_stats[rt.pattern] = _get_route_stats(rh)\n"
+       "    ret = {'route_stats': route_stats, 'start_time_utc': stats_mw.last_reset.isoformat(),\n           'cur_time_utc': datetime.datetime.utcnow().isoformat()}\n"
+       "    stats_mw.reset()\n    ret['reset'] = True\n    return ret\n"))
+B('h5_report_helper_runs_after_reset', ['C19'], 'R19.b', _ST_BUILD,
+  _gar("    stats_mw = _get_stats_mw(_application)\n    stats_mw.reset()\n    ret = _build_stats_dict(stats_mw)\n    ret['reset'] = True\n    return ret\n"))
+B('h5_report_helper_table_read_before_rest_after_reset', ['C19'], 'R19.b', _ST_BUILD,
+  _gar("    stats_mw = _get_stats_mw(_application)\n    ret = _build_stats_dict(stats_mw)\n    stats_mw.reset()\n"
+       "    ret = _build_stats_dict(stats_mw)\n    ret['reset'] = True\n    return ret\n"))
+B('h5_report_helper_result_dropped', ['C19'], 'R19.b', _ST_BUILD,
+  _gar("    stats_mw = _get_stats_mw(_application)\n    report = _build_stats_dict(stats_mw)\n    stats_mw.reset()\n    ret = {'reset': True}\n    return ret\n"))
+B('h5_report_loop_runs_after_reset', ['C19'], 'R19.b',
+  _gar("    stats_mw = _get_stats_mw(_application)\n    route_stats = {}\n    stats_mw.reset()\n    for rt, rh in stats_mw.route_hits.items():\n        if rh:\n"
+       "            route_stats[rt.pattern] = _get_route_stats(rh)\n"
+       "    ret = {'route_stats': route_stats, 'start_time_utc': stats_mw.last_reset.isoformat(),\n           'cur_time_utc': datetime.datetime.utcnow().isoformat()}\n"
+       "    ret['reset'] = True\n    return ret\n"))
+
+# ---- the record type of a hit: declared field order read from a typing.NamedTuple class / a dataclass / a plain class ----------
+_ST_HIT = "Hit = namedtuple('Hit', 'start_time url pattern status_code '\n                 ' duration content_type')\n"
+_ST_IMP = "from collections import namedtuple, defaultdict\n"
+
+
+def _hit_cls(head, order=('start_time: float', 'url: str', 'pattern: str', 'status_code: str', 'duration: float', 'content_type: str')):
+    return (STATS, _ST_HIT, head + ''.join('    %s\n' % f for f in order))
+
+
+_SWAPPED = ('start_time: float', 'pattern: str', 'url: str', 'status_code: str', 'duration: float', 'content_type: str')
+T('h5_hit_typing_namedtuple', ['C19'], (STATS, _ST_IMP, "from typing import NamedTuple\n" + _ST_IMP), _hit_cls("class Hit(NamedTuple):\n"))
+T('h5_hit_typing_namedtuple_qualified', ['C19'], (STATS, _ST_IMP, "import typing\n" + _ST_IMP), _hit_cls("class Hit(typing.NamedTuple):\n"))
+T('h5_hit_dataclass', ['C19'], (STATS, _ST_IMP, "from dataclasses import dataclass\n" + _ST_IMP), _hit_cls("@dataclass(frozen=True)\nclass Hit(object):\n"))
+B('h5_hit_typing_namedtuple_fields_swapped', ['C19'], 'R19.a', (STATS, _ST_IMP, "from typing import NamedTuple\n" + _ST_IMP),
+  _hit_cls("class Hit(NamedTuple):\n", _SWAPPED))
+B('h5_hit_dataclass_fields_swapped', ['C19'], 'R19.a', (STATS, _ST_IMP, "from dataclasses import dataclass\n" + _ST_IMP),
+  _hit_cls("@dataclass\nclass Hit(object):\n", _SWAPPED))
+T('h5_hit_plain_class', ['C19'],
+  (STATS, _ST_HIT, "class Hit(object):\n    def __init__(self, start_time, url, pattern, status_code, duration, content_type):\n        self.start_time = start_time\n"
+                   "        self.url = url\n        self.pattern = pattern\n        self.status_code = status_code\n        self.duration = duration\n"
+                   "        self.content_type = content_type\n"))
+B('h5_hit_plain_class_parameters_swapped', ['C19'], 'R19.a',
+  (STATS, _ST_HIT, "class Hit(object):\n    def __init__(self, start_time, pattern, url, status_code, duration, content_type):\n        self.start_time = start_time\n"
+                   "        self.url = url\n        self.pattern = pattern\n        self.status_code = status_code\n        self.duration = duration\n"
+                   "        self.content_type = content_type\n"))
+T('h5_zero_argument_super', ['C19'], (STATS, "        super(RouteStatReservoir, self).add(hit)\n", "        super().add(hit)\n"),
+  (STATS, "        super(RouteStatReservoir, self).__init__()\n", "        super().__init__()\n"))
+
+# ---- the sample store moved (verbatim) into another module of the package and imported back: its methods are judged where they
+#      live, the writers of its state are its own methods by identity -----------------------------------------------------------------
+_RESERVOIR_SRC = '''
+
+import random
+
+
+def fast_randint(start, stop):
+    return (start + int(random.random() * (stop + 1 - start)))
+
+
+class Reservoir(object):
+    def __init__(self, cap=True, data=None, container=None):
+        if cap is True:
+            self._cap = 2 ** 14  # 16k
+        elif cap is False:
+            self._cap = float('inf')
+        else:
+            self._cap = int(cap)
+        if container is None:
+            container = []
+        self._data = container
+        self._total_count = len(container)
+        assert self._total_count < self._cap, 'initial count %r must be lower than cap %r' % (self._total_count, self._cap)
+
+        for val in (data or []):
+            self.add(val)
+        return
+
+    @property
+    def total_count(self):
+        return self._total_count
+
+    def add(self, val):
+        self._total_count += 1
+        if len(self._data) < self._cap:
+            self._data.append(val)
+            return
+
+        idx = fast_randint(0, self._total_count)
+        if idx < self._cap:
+            self._data[idx] = val
+        return
+
+    def __iter__(self):
+        return iter(self._data)
+
+    def to_list(self):
+        return list(self)
+
+    def resize(self, new_size):
+        self._cap = new_size
+        if new_size >= len(self._data):
+            return
+        self._data = self._data[:new_size]
+
+    def __repr__(self):
+        cn = self.__class__.__name__
+        return ('<%s cap=%r, data_count=%r, total_count=%r>'
+                % (cn, self._cap, len(self._data), self._total_count))
+'''
+
+
+def _moved_store(src=_RESERVOIR_SRC):
+    return [(STATS, r're:(?s)\ndef fast_randint\(start, stop\):.*?\n(?=Hit = namedtuple)', '\n'),
+            (STATS, "from .core import Middleware\n", "from .core import Middleware, fast_randint, Reservoir\n"),
+            (C, r're:\Z', src)]
+
+
+T('h5_store_moved_to_another_module', ['C19', 'C15'], *_moved_store())
+B('h5_store_moved_and_index_bound_loosened', ['C19'], 'R19.c', *_moved_store(_RESERVOIR_SRC.replace("        if idx < self._cap:\n", "        if idx <= self._cap:\n")))
+B('h5_store_moved_and_appends_twice', ['C19'], 'R19.c',
+  *_moved_store(_RESERVOIR_SRC.replace("            self._data.append(val)\n            return\n", "            self._data.append(val)\n            self._data.append(val)\n            return\n")))
+B('h5_store_moved_and_resize_keeps_everything', ['C19'], 'R19.c',
+  *_moved_store(_RESERVOIR_SRC.replace("        self._data = self._data[:new_size]\n", "        self._data = self._data[:]\n")))
+B('h5_store_moved_and_subclass_writes_the_capacity', ['C19'], 'R19.c',
+  *(_moved_store() + [(STATS, "        self.last_hit = hit.start_time\n", "        self.last_hit = hit.start_time\n        self._cap += 1\n")]))
+B('h5_store_moved_and_count_reset_by_resize', ['C19'], 'R19.c',
+  *_moved_store(_RESERVOIR_SRC.replace("        self._cap = new_size\n", "        self._cap = new_size\n        self._total_count = 0\n")))
+T('h5_store_size_public_property', ['C19'],
+  (STATS, _ST_TC_PROP, _ST_TC_PROP + "\n    @property\n    def data_count(self):\n        return len(self._data)\n"),
+  (STATS, _ST_ADD_TEST, "        if self.data_count < self._cap:\n"), (STATS, _ST_RESIZE_TEST, "        if new_size >= self.data_count:\n"))
+B('h5_store_size_public_property_counts_adds', ['C19'], 'R19.c',
+  (STATS, _ST_TC_PROP, _ST_TC_PROP + "\n    @property\n    def data_count(self):\n        return self._total_count - 1\n"),
+  (STATS, _ST_ADD_TEST, "        if self.data_count < self._cap:\n"))
+B('h5_store_size_property_overridden_by_the_subclass', ['C19'], 'R19.c',
+  (STATS, _ST_TC_PROP, _ST_TC_PROP + "\n    @property\n    def data_count(self):\n        return len(self._data)\n"),
+  (STATS, _ST_ADD_TEST, "        if self.data_count < self._cap:\n"),
+  (STATS, "    def add(self, hit):\n        super(RouteStatReservoir, self).add(hit)\n",
+          "    @property\n    def data_count(self):\n        return 0\n\n    def add(self, hit):\n        super(RouteStatReservoir, self).add(hit)\n"))
+
+# ---- the other parts of the mechanism moved as well (the summary function; the whole reservoir family with the record type) ---------
+_ST_GRS = '''def _get_route_stats(rt_hits):
+    ret = {}
+    for status, hits in rt_hits.items():
+        ret[status] = cur = {}
+        durs = [round(h.duration * 1000, 2) for h in hits]
+        stats = Stats(durs, use_copy=False)
+        desc_dict = stats.describe(quantiles=[0.25, 0.5, 0.75, 0.95, 0.99], format="dict")
+        desc_dict['count'] = hits.total_count  # need to account for reservoir count
+        desc_dict['last_hit'] = datetime.datetime.fromtimestamp(hits.last_hit).isoformat()
+        desc_dict['total_duration'] = round(hits.total_duration * 1000, 2)
+        cur.update(desc_dict)
+    return ret
+'''
+
+
+def _moved_summary(src=_ST_GRS):
+    return [(STATS, _ST_GRS, ''), (STATS, "from .core import Middleware\n", "from .core import Middleware, _get_route_stats\n"),
+            (C, r're:\Z', "\n\nimport datetime\nfrom boltons.statsutils import Stats\n\n\n" + src)]
+
+
+T('h5_summary_moved_to_another_module', ['C19'], *_moved_summary())
+B('h5_summary_moved_and_count_is_sample_size', ['C19'], 'R19.b',
+  *_moved_summary(_ST_GRS.replace("        desc_dict['count'] = hits.total_count  # need to account for reservoir count\n", "")))
+B('h5_summary_moved_and_stops_early', ['C19'], 'R19.b', *_moved_summary(_ST_GRS.replace("        cur.update(desc_dict)\n", "        cur.update(desc_dict)\n        break\n")))
+_FAMILY_SRC = _RESERVOIR_SRC + '''
+
+from collections import namedtuple
+
+Hit = namedtuple('Hit', 'start_time url pattern status_code '
+                 ' duration content_type')
+
+
+class RouteStatReservoir(Reservoir):
+    def __init__(self):
+        self.last_hit = None
+        self.total_duration = 0.0
+        super(RouteStatReservoir, self).__init__()
+
+    def add(self, hit):
+        super(RouteStatReservoir, self).add(hit)
+        self.last_hit = hit.start_time
+        self.total_duration += hit.duration
+'''
+
+
+def _moved_family(src=_FAMILY_SRC):
+    return [(STATS, r're:(?s)\ndef fast_randint\(start, stop\):.*?\n(?=class StatsMiddleware)', '\n'),
+            (STATS, "from .core import Middleware\n", "from .core import Middleware, fast_randint, Reservoir, Hit, RouteStatReservoir\n"), (C, r're:\Z', src)]
+
+
+T('h5_reservoir_family_moved', ['C19', 'C15'], *_moved_family())
+B('h5_reservoir_family_moved_fields_reordered', ['C19'], 'R19.a',
+  *_moved_family(_FAMILY_SRC.replace("'start_time url pattern status_code '", "'start_time pattern url status_code '")))
+B('h5_reservoir_family_moved_subclass_adds_twice', ['C19'], 'R19.c',
+  *_moved_family(_FAMILY_SRC.replace("        self.last_hit = hit.start_time\n", "        self.last_hit = hit.start_time\n        Reservoir.add(self, hit)\n")))
+
+# ---- sentinels: ``X.get(k, _S) is _S`` is the presence test ``k not in X`` (R15.h); ``getattr(e, 'code', _S)`` tested against ``_S``
+#      (or ``hasattr``) is the decision ``getattr(e, 'code', <class name>)`` makes (R19.a) -- for a module-level ``_S = object()`` that is
+#      only ever a lookup default / an operand of ``is`` ---------------------------------------------------------------------------
+_CTX_CLS = "class ContextProcessor(Middleware):\n"
+_CTX_TEST = "                if not self.overwrite and arg in context:\n"
+_CTX_UNSET = (CTX, _CTX_CLS, "_UNSET = object()\n\n\n" + _CTX_CLS)
+T('h5_ctx_sentinel_lookup', ['C15'], _CTX_UNSET, (CTX, _CTX_TEST, "                if not self.overwrite and context.get(arg, _UNSET) is not _UNSET:\n"))
+T('h5_ctx_sentinel_lookup_named', ['C15'], _CTX_UNSET,
+  (CTX, _CTX_TEST, "                current = context.get(arg, _UNSET)\n                if not self.overwrite and current is not _UNSET:\n"))
+B('h5_ctx_sentinel_read_the_wrong_way', ['C15'], 'R15.h', _CTX_UNSET,
+  (CTX, _CTX_TEST, "                if not self.overwrite and context.get(arg, _UNSET) is _UNSET:\n"))
+B('h5_ctx_none_is_not_a_sentinel', ['C15'], 'R15.h', (CTX, _CTX_TEST, "                if not self.overwrite and context.get(arg) is not None:\n"))
+B('h5_ctx_sentinel_put_into_the_context', ['C15'], 'R15.h', _CTX_UNSET,
+  (CTX, _CTX_TEST, "                if not self.overwrite and context.get(arg, _UNSET) is not _UNSET:\n"),
+  (CTX, "                context[arg] = kwargs.get(arg, self.defaults.get(arg))\n", "                context[arg] = kwargs.get(arg, self.defaults.get(arg, _UNSET))\n"))
+B('h5_ctx_sentinel_of_another_key', ['C15'], 'R15.h', _CTX_UNSET,
+  (CTX, _CTX_TEST, "                if not self.overwrite and context.get('arg', _UNSET) is not _UNSET:\n"))
+_ST_EXC_KEY = "            resp_status = repr(getattr(e, 'code', e.__class__.__name__))\n"
+_ST_MISSING = (STATS, "Hit = namedtuple(", "_MISSING = object()\n\n\nHit = namedtuple(")
+T('h5_status_key_sentinel_lookup', ['C19'], _ST_MISSING,
+  (STATS, _ST_EXC_KEY, "            code = getattr(e, 'code', _MISSING)\n            resp_status = repr(e.__class__.__name__ if code is _MISSING else code)\n"))
+T('h5_status_key_hasattr_branches', ['C19'],
+  (STATS, _ST_EXC_KEY, "            if hasattr(e, 'code'):\n                resp_status = repr(e.code)\n            else:\n                resp_status = repr(e.__class__.__name__)\n"))
+B('h5_status_key_sentinel_branches_swapped', ['C19'], 'R19.a', _ST_MISSING,
+  (STATS, _ST_EXC_KEY, "            code = getattr(e, 'code', _MISSING)\n            resp_status = repr(code if code is _MISSING else e.__class__.__name__)\n"))
+B('h5_status_key_one_key_for_all_other_exceptions', ['C19'], 'R19.a', _ST_MISSING,
+  (STATS, _ST_EXC_KEY, "            code = getattr(e, 'code', _MISSING)\n            resp_status = repr('error' if code is _MISSING else code)\n"))
+B('h5_status_key_hasattr_of_another_attribute', ['C19'], 'R19.a',
+  (STATS, _ST_EXC_KEY, "            if hasattr(e, 'description'):\n                resp_status = repr(e.code)\n            else:\n                resp_status = repr(e.__class__.__name__)\n"))
+
+# ---- a built-in middleware moved out of the middleware package and imported back: it is still a built-in middleware (C15 scans it) ---
+CKM = 'clastic/middleware/cookie.py'
+_CK_MW_SRC = '''
+
+import os
+import time
+from .middleware.core import Middleware
+from .middleware.cookie import JSONCookie, SESSION, NEVER
+
+
+class SignedCookieMiddleware(Middleware):
+    _cookie_type = JSONCookie
+
+    def __init__(self,
+                 arg_name='cookie',
+                 cookie_name=None,
+                 secret_key=None,
+                 domain=None,
+                 path='/',
+                 secure=False,
+                 http_only=False,
+                 expiry=SESSION,
+                 data_expiry=None):
+        if data_expiry is not None:
+            print("SignedCookieMiddleware's data_expiry argument is deprecated"
+                  ". Use expiry instead.")
+            expiry = data_expiry
+        self.arg_name = arg_name
+        self.provides = (arg_name,)
+        if cookie_name is None:
+            cookie_name = 'clastic_%s' % arg_name
+        self.cookie_name = cookie_name
+        self.secret_key = secret_key or self._get_random()
+        self.domain = domain  # used for cross-domain cookie
+        self.path = path  # limit cookie to given path
+        self.secure = secure  # only transmit on HTTPS
+        self.http_only = http_only  # disallow client-side (js) access
+        self.expiry = expiry
+
+    def request(self, next, request):
+        cookie = self._cookie_type.load_cookie(request,
+                                               key=self.cookie_name,
+                                               secret_key=self.secret_key)
+        response = next(**{self.arg_name: cookie})
+        if self.expiry != NEVER and self.expiry != SESSION:
+            # let the cookie-specified value override, if present
+            if '_expires' not in cookie:
+                cookie['_expires'] = time.time() + self.expiry
+        save_cookie_kwargs = dict(key=self.cookie_name,
+                                  domain=self.domain,
+                                  path=self.path,
+                                  secure=self.secure,
+                                  httponly=self.http_only)
+        if '_expires' in cookie:
+            save_cookie_kwargs['expires'] = cookie['_expires']
+        cookie.save_cookie(response, **save_cookie_kwargs)
+        return response
+
+    def _get_random(self):
+        return os.urandom(20)
+
+    def __repr__(self):
+        cn = self.__class__.__name__
+        return ('%s(arg_name=%r, cookie_name=%r)'
+                % (cn, self.arg_name, self.cookie_name))
+
+'''
+
+
+def _moved_cookie_mw(src=_CK_MW_SRC):
+    return [(CKM, r're:(?s)class SignedCookieMiddleware\(Middleware\):.*\Z', 'from ..errors import SignedCookieMiddleware\n'), (E, r're:\Z', src)]
+
+
+T('h5_cookie_middleware_moved_out_of_the_package', ['C15'], *_moved_cookie_mw())
+B('h5_cookie_middleware_moved_and_answers_itself', ['C15'], 'R15.b',
+  *_moved_cookie_mw(_CK_MW_SRC.replace("        cookie.save_cookie(response, **save_cookie_kwargs)\n        return response\n",
+                                       "        cookie.save_cookie(response, **save_cookie_kwargs)\n        return None\n")))
+B('h5_cookie_middleware_moved_and_reads_a_mixin_attribute', ['C15'], 'R15.a',
+  *_moved_cookie_mw(_CK_MW_SRC.replace("        cookie.save_cookie(response, **save_cookie_kwargs)\n        return response\n",
+                                       "        cookie.save_cookie(response, **save_cookie_kwargs)\n        response.cache_control.private = True\n        return response\n")))
+_RES_PROP_SRC = _RESERVOIR_SRC.replace("    def add(self, val):\n", "    @property\n    def _data_count(self):\n        return len(self._data)\n\n    def add(self, val):\n") \
+    .replace("        if len(self._data) < self._cap:\n", "        if self._data_count < self._cap:\n").replace("        if new_size >= len(self._data):\n", "        if new_size >= self._data_count:\n")
+T('h5_store_moved_with_size_property', ['C19'], *_moved_store(_RES_PROP_SRC))
+B('h5_store_moved_with_size_property_one_too_many', ['C19'], 'R19.c', *_moved_store(_RES_PROP_SRC.replace("        if self._data_count < self._cap:\n", "        if self._data_count <= self._cap:\n")))
